@@ -350,6 +350,9 @@ impl QueryRouter {
             }
 
             Command::SetPrimaryReads => {
+                // The command is matched case-insensitively, like SET SERVER ROLE.
+                let value = value.to_ascii_lowercase();
+
                 if value == "on" {
                     debug!("Setting primary reads to on");
                     self.primary_reads_enabled = Some(true);
